@@ -1398,6 +1398,9 @@ func runCase(run *hx.Run, model *hx.Model, name string, script []string, report 
 	if len(script) > 0 && strings.HasPrefix(script[0], "visit ") {
 		return runWireCase(run, model, name, script, report)
 	}
+	if len(script) > 0 && strings.HasPrefix(script[0], "configured ") {
+		return runConfiguredCase(run, model, name, script, report)
+	}
 	spec, err := parseSpec(script)
 	if err != nil {
 		return
@@ -1883,7 +1886,8 @@ func TestC13(t *testing.T) {
 		"a second output directory of the other root-digest mode (listed before and after) with each child directory object absent, Trees cut/truncated/failing " +
 		"at boundary bytes (quick) or every byte (thorough); each message also through GetFromComposite (slicer returning the parent, a byte range, or failing), " +
 		"complete, with every single object missing and with a fault; each message with the Action Cache entry overwritten during the request " +
-		"(later reads return one more output file: absent, present, malformed); plus raw byte strings through util.VisitProtoBytesFields. " +
+		"(later reads return one more output file: absent, present, malformed); the decorator built by blobstore/configuration (completeness_checking over in-memory local stores) with " +
+		"maximum_total_tree_size_bytes in {unset, 0, 1, first-1, first, total-1, total, total+1, large}; plus raw byte strings through util.VisitProtoBytesFields. " +
 		"A case is non-trivial when the action result references >= 2 distinct well-formed digests and the CAS is called; distinct by script hash")
 
 	// Oracle hits and disagreements have separate budgets: a change that makes model and
@@ -2172,6 +2176,12 @@ func TestC13(t *testing.T) {
 				}
 			}
 		}
+	}
+	// the decorator as the configuration code assembles it: the configured tree size limit is the budget
+	ncfg := run.Scale(250, 2500)
+	for i := 0; i < ncfg && searching(); i++ {
+		r := hx.NewRand(run.Seed, "C13-configured", i)
+		handle(fmt.Sprintf("seed%d/configured%d", run.Seed, i), genConfigured(r))
 	}
 	nwire := run.Scale(4000, 60000)
 	for i := 0; i < nwire && searching(); i++ {
